@@ -11,7 +11,7 @@ COQ_RUN = "run06"
 COQ_CASE_TYPE = "case06"
 SHARD = 150
 RULE = ("every helper of ebb_motion.py (function style) and ebb3_motion.py / EBB3.var_write (class style) called against an all-acknowledging fake port (acknowledging at once, after 1-3 timed-out reads, or after a blank line), "
-        "with positional and with keyword arguments, alone and (class style) after 1-3 earlier helper calls on the same object incl. disconnect/reattach and every ordered pair of single-motor requests, with arguments from {0, +-1, 750, 751, 1500, 2^31-1, -2^31, random}, optional arguments absent / zero / non-zero, motor resolutions -2..8, pauses "
+        "with positional and with keyword arguments, alone and (class style) after 1-3 earlier helper calls on the same object incl. disconnect/reattach, a port replaced by assignment, and every ordered pair of single-motor requests, with arguments from {0, +-1, 750, 751, 1500, 2^31-1, -2^31, random}, optional arguments absent / zero / non-zero, motor resolutions -2..8, pauses "
         "-5..4000 incl. the chunk boundaries; the bytes written (every line must end in exactly one CR) are compared with the model and with the documented text; "
         "non-trivial = a helper with at least one optional or zero-valued argument, or a pause of more than one chunk")
 TRUSTED = ["the documented command table Spec/EbbDoc.v, transcribed from the docstrings of the repository", "fake port acknowledging every command"]
@@ -62,14 +62,14 @@ def generate(rng, tier):
         return rng.choice([("E_MotorsOn", rng.randint(-1, 6), rng.randint(-1, 6)), ("E_MotorsOn", rng.choice([0, 1, 3]), rng.choice([0, 2, 5])), ("E_MotorsOff",),
                            ("E_Pen", rng.random() < 0.5, _i(rng), _o(rng)), ("E_Pause", _pause(rng)), ("E_XY", _i(rng), _i(rng), _i(rng)),
                            ("E_Abs", _i(rng), _o(rng), _o(rng)), ("E_Servo", _i(rng), rng.choice([None, 0, 1])), ("E_BConfig", rng.randint(0, 7), rng.randint(0, 1), rng.randint(0, 1)),
-                           ("E_PenPos", rng.random() < 0.5, _i(rng)), ("E_Var", rng.randint(0, 255), rng.randint(0, 31)), ("E_ClearSteps",), ("E_Reconnect",)])
+                           ("E_PenPos", rng.random() < 0.5, _i(rng)), ("E_Var", rng.randint(0, 255), rng.randint(0, 31)), ("E_ClearSteps",), ("E_Reconnect",), ("E_SwapPort",)])
     single = [(a, 0) for a in range(1, 6)] + [(0, b) for b in range(1, 6)]
     for (a1, b1) in single[:: (1 if tier != "quick" else 3)]:
         for (a2, b2) in single:
             cases.append({"h": ("E_MotorsOn", a2, b2), "pre": [("E_MotorsOn", a1, b1)], "family": "after/E_MotorsOn"})
     for _ in range(4 * n):
         h = e_helper()
-        while h[0] == "E_Reconnect": h = e_helper()
+        while h[0] in ("E_Reconnect", "E_SwapPort"): h = e_helper()
         cases.append({"h": h, "pre": [e_helper() for _ in range(rng.randint(1, 3))], "family": "after/" + h[0]})
     # with no port nothing is sent (and nothing raises): one no-port twin for every kind of helper
     seen = set()
@@ -149,6 +149,10 @@ def run_impl(c):
         for ph in c.get("pre", []):          # earlier calls on the same object: not judged, only there to leave state behind
             if ph[0] == "E_Reconnect":
                 o.disconnect(); o.port = port
+            elif ph[0] == "E_SwapPort":
+                # the application hands the object another (already open) port by plain assignment: later requests belong on that one
+                old = port
+                port = AckPort(False, c.get("delay", 0), c.get("blank", False), None, "0,0"); o.port = port
             else:
                 _e_call(o, ph[0], ph[1:])
         if o.err is not None: return {"raise": "recorded error: %s" % o.err}
